@@ -10,6 +10,7 @@ import (
 	"encoding/json"
 	"fmt"
 	"io"
+	"strconv"
 	"strings"
 )
 
@@ -27,6 +28,55 @@ type jval struct {
 	quoted bool   // scalar: was a JSON string
 	keys   []string
 	vals   []*jval // map values, or array elements
+	alias  string  // documents of the size dimension: short canonical name used in violation keys
+}
+
+// keyText: the canonical text of a document inside a violation key.
+func (v *jval) keyText() string {
+	if v.alias != "" {
+		return v.alias
+	}
+	return v.String()
+}
+
+// showText: the document inside a message (long documents are clipped; the replay carries the whole text).
+func (v *jval) showText() string {
+	if v.alias != "" {
+		return v.alias + " = " + clipLong(v.String())
+	}
+	return v.String()
+}
+
+func clipLong(s string) string {
+	if len(s) > 500 {
+		return s[:240] + " ...(" + strconv.Itoa(len(s)-480) + " bytes)... " + s[len(s)-240:]
+	}
+	return s
+}
+
+// clipDiff clips two long texts to the neighbourhood of their first difference.
+func clipDiff(got, want string) (string, string) {
+	if len(got) <= 500 && len(want) <= 500 {
+		return got, want
+	}
+	p := 0
+	for p < len(got) && p < len(want) && got[p] == want[p] {
+		p++
+	}
+	cut := func(s string) string {
+		a, b := p-80, p+160
+		if a < 0 {
+			a = 0
+		}
+		if b > len(s) {
+			b = len(s)
+		}
+		if a > b {
+			a = b
+		}
+		return fmt.Sprintf("(%d bytes; from byte %d) ...%s...", len(s), a, s[a:b])
+	}
+	return cut(got), cut(want)
 }
 
 func jstr(s string) *jval { return &jval{kind: jScalar, text: s, quoted: true} }
